@@ -94,6 +94,12 @@ Proof.
   - apply Bool.eqb_prop in H. congruence.
   - apply (list_eqb_eq Z.eqb Z.eqb_eq) in H. congruence.
   - apply Z.eqb_eq in H. congruence.
+  - apply andb_true_iff in H as [H1 H2]. apply Nat.eqb_eq in H1. subst.
+    destruct o as [a|], o0 as [b|]; try discriminate; [|reflexivity].
+    apply (list_eqb_eq Z.eqb Z.eqb_eq) in H2. congruence.
+  - assert (E : forall p q : Z * string, Z.eqb (fst p) (fst q) && String.eqb (snd p) (snd q) = true <-> p = q).
+    { intros [a b] [c d]; simpl. rewrite andb_true_iff, Z.eqb_eq, String.eqb_eq. split; [intros [-> ->]; reflexivity|intros H0; inversion H0; auto]. }
+    apply (list_eqb_eq _ E) in H. congruence.
 Qed.
 
 Lemma expr_eqb_eq : forall a b, expr_eqb a b = true -> a = b.
@@ -203,9 +209,11 @@ Proof.
     inversion H1; inversion H2; reflexivity.
 Qed.
 
-Lemma index_apply_typed a i v : index_apply a i = Some (RVal v) -> vty v = TInt.
+Definition index_result_ty (a : value) : ty := match a with VMap _ => TString | _ => TInt end.
+Lemma index_apply_typed a i v : index_apply a i = Some (RVal v) -> vty v = index_result_ty a.
 Proof.
-  destruct a, i; simpl; try discriminate; intros H; inversion H as [H']; clear H;
+  destruct a as [| | | | | | |n [l|]|m], i; simpl; try discriminate; intros H; inversion H as [H']; clear H;
+    try reflexivity;
     destruct (_ <? 0)%Z; try discriminate;
     match type of H' with context [match ?x with _ => _ end] => destruct x end; try discriminate; inversion H'; reflexivity.
 Qed.
@@ -237,7 +245,7 @@ Proof.
       assert (t0 = TBool) as ->.
       { unfold binop_type in Ht. destruct (negb (ty_eqb ta tb)); [discriminate|]. destruct ta; congruence. }
       simpl in Hv. destruct (evalS en e1 h) as [[[v1|] h1]|]; simpl in Hv; try discriminate.
-      destruct v1 as [| | | |[]| |]; try discriminate.
+      destruct v1 as [| | | |[]| | | |]; try discriminate.
       * destruct (evalS en e2 h1) as [[[v2|] h2]|]; simpl in Hv; try discriminate.
         destruct v2; simpl in Hv; try discriminate. inversion Hv; reflexivity.
       * inversion Hv; reflexivity.
@@ -245,7 +253,7 @@ Proof.
       assert (t0 = TBool) as ->.
       { unfold binop_type in Ht. destruct (negb (ty_eqb ta tb)); [discriminate|]. destruct ta; congruence. }
       simpl in Hv. destruct (evalS en e1 h) as [[[v1|] h1]|]; simpl in Hv; try discriminate.
-      destruct v1 as [| | | |[]| |]; try discriminate.
+      destruct v1 as [| | | |[]| | | |]; try discriminate.
       * inversion Hv; reflexivity.
       * destruct (evalS en e2 h1) as [[[v2|] h2]|]; simpl in Hv; try discriminate.
         destruct v2; simpl in Hv; try discriminate. inversion Hv; reflexivity.
@@ -264,16 +272,18 @@ Proof.
     + simpl in Hv. inversion Hv; inversion Ht; subst. apply Hen.
     + destruct (prim_apply p vs) as [[w|]|] eqn:PA; simpl in Hv; try discriminate. inversion Hv; subst.
       eapply prim_apply_typed; [exact PA|exact Ht].
-  - simpl in Ht. assert (t0 = TInt) as ->.
-    { destruct (typeof e1) as [[]|]; try discriminate; destruct (typeof e2) as [[]|]; try discriminate; congruence. }
-    simpl in Hv. destruct (evalS en e1 h) as [[[v1|] h1]|]; simpl in Hv; try discriminate.
+  - simpl in Ht. simpl in Hv.
+    destruct (typeof e1) as [t1|] eqn:T1; [|discriminate].
+    destruct (evalS en e1 h) as [[[v1|] h1]|] eqn:E1; simpl in Hv; try discriminate.
+    pose proof (IHe1 _ _ _ _ eq_refl E1) as V1.
     destruct (evalS en e2 h1) as [[[v2|] h2]|]; simpl in Hv; try discriminate.
     destruct (index_apply v1 v2) as [[w|]|] eqn:IA; simpl in Hv; try discriminate. inversion Hv; subst.
-    eapply index_apply_typed; eauto.
+    rewrite (index_apply_typed _ _ _ IA).
+    destruct v1; simpl in *; destruct (typeof e2) as [[]|]; try discriminate; inversion Ht; reflexivity.
   - simpl in Hv. destruct (evalS en e h) as [[[v1|] h1]|] eqn:E; simpl in Hv; try discriminate.
-    assert (vty v1 = t0).
-    { simpl in Ht. destruct (typeof e) as [[]|] eqn:T; try discriminate; inversion Ht; subst; eapply IHe; eauto. }
-    destruct v1; simpl in Hv; try discriminate; inversion Hv; subst; first [assumption|reflexivity].
+    simpl in Ht. destruct (typeof e) as [te|] eqn:T; [|discriminate].
+    pose proof (IHe _ _ _ _ eq_refl E) as V1.
+    destruct v1 as [| | | | | | |n [l|]|m]; simpl in Hv; try discriminate; inversion Hv; subst; simpl in Ht; inversion Ht; reflexivity.
   - simpl in *. inversion Ht; inversion Hv; subst. apply Hen.
   - simpl in *. destruct (nilp en x); [discriminate|]. inversion Ht; inversion Hv; subst. apply Hen.
   - simpl in *. inversion Ht; inversion Hv; subst. reflexivity.
@@ -316,33 +326,33 @@ Proof.
     destruct r2 as [[v2|]|].
     + destruct o;
         try (match goal with |- pure_at _ (EBinary ?o _ _) => exists (binop_apply o v1 v2) end; intros h; simpl; rewrite H1; simpl; rewrite H2; reflexivity).
-      * destruct v1 as [| | | |[]| |];
+      * destruct v1 as [| | | |[]| | | |];
           try (exists None; intros h; simpl; rewrite H1; reflexivity).
         -- destruct v2; try (exists None; intros h; simpl; rewrite H1; simpl; rewrite H2; reflexivity).
            eexists (Some _); intros h; simpl; rewrite H1; simpl; rewrite H2; reflexivity.
         -- eexists (Some _); intros h; simpl; rewrite H1; reflexivity.
-      * destruct v1 as [| | | |[]| |];
+      * destruct v1 as [| | | |[]| | | |];
           try (exists None; intros h; simpl; rewrite H1; reflexivity).
         -- eexists (Some _); intros h; simpl; rewrite H1; reflexivity.
         -- destruct v2; try (exists None; intros h; simpl; rewrite H1; simpl; rewrite H2; reflexivity).
            eexists (Some _); intros h; simpl; rewrite H1; simpl; rewrite H2; reflexivity.
     + destruct o;
         try (exists (Some RPanic); intros h; simpl; rewrite H1; simpl; rewrite H2; reflexivity).
-      * destruct v1 as [| | | |[]| |];
+      * destruct v1 as [| | | |[]| | | |];
           try (exists None; intros h; simpl; rewrite H1; reflexivity).
         -- exists (Some RPanic); intros h; simpl; rewrite H1; simpl; rewrite H2; reflexivity.
         -- eexists (Some _); intros h; simpl; rewrite H1; reflexivity.
-      * destruct v1 as [| | | |[]| |];
+      * destruct v1 as [| | | |[]| | | |];
           try (exists None; intros h; simpl; rewrite H1; reflexivity).
         -- eexists (Some _); intros h; simpl; rewrite H1; reflexivity.
         -- exists (Some RPanic); intros h; simpl; rewrite H1; simpl; rewrite H2; reflexivity.
     + destruct o;
         try (exists None; intros h; simpl; rewrite H1; simpl; rewrite H2; reflexivity).
-      * destruct v1 as [| | | |[]| |];
+      * destruct v1 as [| | | |[]| | | |];
           try (exists None; intros h; simpl; rewrite H1; reflexivity).
         -- exists None; intros h; simpl; rewrite H1; simpl; rewrite H2; reflexivity.
         -- eexists (Some _); intros h; simpl; rewrite H1; reflexivity.
-      * destruct v1 as [| | | |[]| |];
+      * destruct v1 as [| | | |[]| | | |];
           try (exists None; intros h; simpl; rewrite H1; reflexivity).
         -- eexists (Some _); intros h; simpl; rewrite H1; reflexivity.
         -- exists None; intros h; simpl; rewrite H1; simpl; rewrite H2; reflexivity.
